@@ -7,23 +7,26 @@
 (* only when api.body is listed before another source.  Every state = a case. *)
 EXTENDS HttpMap, TLC, Json
 
-VARIABLES anns, have, body, req, o, ty
-vars == <<anns, have, body, req, o, ty>>
+VARIABLES anns, have, body, req, o, ty, lvl
+vars == <<anns, have, body, req, o, ty, lvl>>
 Lists == {<<>>} \cup {<<a>> : a \in Sources} \cup UNION {{<<a, b>> : b \in Sources \ {a}} : a \in Sources}
 Init == /\ anns \in {l \in Lists : Len(l) >= 1}
         /\ body \in {"none", "json", "form"}
         /\ have \in {h \in SUBSET ({anns[i] : i \in 1..Len(anns)} \cup {"member"}) : Consistent(h, body)}
         /\ req \in {"req", "opt", "def"} /\ ty \in {"i32", "str"}
         /\ o \in [fallback : BOOLEAN, wreq : BOOLEAN, wdef : BOOLEAN, wopt : BOOLEAN]
+        /\ lvl \in {"root", "nbs"}
+        \* the nested level: the options play no part, and the body member named like the field is not in the picture
+        /\ (lvl = "nbs" => (o = [fallback |-> FALSE, wreq |-> TRUE, wdef |-> FALSE, wopt |-> FALSE] /\ "member" \notin have))
 Next == UNCHANGED vars
 Spec == Init /\ [][Next]_vars
-E == Expect(anns, have, body, req, o)
+E == ExpectL(lvl, anns, have, body, req, o)
 Total == E.st \in {"ok", "err", "unspec"}
 ListedWins == (\E i \in 1..Len(anns) : anns[i] \in have) => (E.st = "ok" /\ E.val \in have /\ E.val = FirstWith(anns, have))
 OptionsOnlyWhenNoValue == \A o2 \in [fallback : BOOLEAN, wreq : BOOLEAN, wdef : BOOLEAN, wopt : BOOLEAN] :
-                            (\E i \in 1..Len(anns) : anns[i] \in have) => Expect(anns, have, body, req, o2) = E
+                            (\E i \in 1..Len(anns) : anns[i] \in have) => ExpectL(lvl, anns, have, body, req, o2) = E
 OrderDeviation == (FirstWith(Effective(anns), have) # FirstWith(anns, have)) => (Len(anns) = 2 /\ anns[1] = "body" /\ {anns[1], anns[2]} \subseteq have)
 \* the write options only matter without a value: emit one option set otherwise (keeps the case list small)
 Emit == ((\E i \in 1..Len(anns) : anns[i] \in have) => (o.wreq /\ ~o.wdef /\ ~o.wopt /\ ~o.fallback)) =>
-        PrintT(ToJson([tag |-> "case", anns |-> anns, have |-> have, body |-> body, req |-> req, o |-> o, ty |-> ty]))
+        PrintT(ToJson([tag |-> "case", anns |-> anns, have |-> have, body |-> body, req |-> req, o |-> o, ty |-> ty, lvl |-> lvl]))
 =============================================================================
